@@ -269,3 +269,16 @@ CHECKS["C19"] = {
         {"part": "commands", "crate": "vgov", "bin": "c19_cmd", "budget_quick": 8, "budget_thorough": 60},
     ],
 }
+
+CHECKS["C20"] = {
+    "level": "exploration",
+    "engine": "SCOPE (assertion multisets x every recording order through the real executor) + independent BeliefModel",
+    "technique": "bounded-exhaustive enumeration of assertion multisets and of every recording order / interleaving of ASSERT, RETRACT and SUPERSEDE through the real executor, compared with a connected-components reference model and across orders; eligibility enumerated separately (it is decided per row)",
+    "design_ref": "DESIGN.md 5/C20",
+    "text": "grouping: multisets of assertions over 3 actors x 8 evidence subsets x 3 stances x confidence {unstated, .3, .6, .9, 0.0, 1.0} on a plain and on a functional predicate with one rival value, EVERY recording order of each multiset: n <= 1 all 864 letters under three threshold sets; n = 2 one structure pair per actor/evidence renaming class x all stance and confidence pairs (thorough: all multisets); n = 3 146 renaming classes x stance patterns, all 6 orders (thorough: all 2,600 structure multisets x 27 stance patterns); n = 4 160 classes x all 24 orders (thorough: all 17,550 multisets x 24 orders); thorough n = 5 98,280 multisets in two orders. Each history is checked against the model (union-find over actors and evidence ids, per-group max confidence, score 1 - prod(1 - max_c) in exact arithmetic, exact thresholds), across orders, across the four ways of asking (BELIEF (?p), triple, id:, BELIEF SLOT) and by re-projection after unrelated writes; the laws 'repetition never adds a group / never raises a score unless more confident' and 'scores monotone in a group maximum' are checked between every pair of run multisets differing by one element or one confidence. eligibility: 4 lifecycles x 6 modes x 7 validity windows (both boundaries) x 3 stances on plain / functional own value / functional rival value, alone and next to each of 9 witness assertions in every statement interleaving, projected at 3 evaluation times x 6 policies: ineligible rows count for nothing and are listed as excluded; no eligible assertion => insufficient, never rejected; the answer names its policy.",
+    "note": "Quick n >= 2 (and all functional n >= 3 stages) use one representative per actor/evidence renaming class, sound if actors and evidence ids matter only through equality (the thorough plain stages run all multisets). Single space, one rival value, no AS OF, no archived/tombstoned rows. The quantifier's 'randomized beyond' part is sampling and is not built. One recorded finding (a fully grounded BELIEF over a never-stored proposition returns zero rows, not insufficient).",
+    "parts": [
+        {"part": "grouping", "crate": "vbelief", "bin": "c20_grouping", "budget_quick": 30, "budget_thorough": 1080},
+        {"part": "eligibility", "crate": "vbelief", "bin": "c20_eligibility", "budget_quick": 12, "budget_thorough": 420},
+    ],
+}
